@@ -76,7 +76,16 @@ func (m *mantarayManifest) Remove(ctx context.Context, path string) error {
 	return nil
 }
 
-func (m *mantarayManifest) Lookup(ctx context.Context, path string) (Entry, error) {
+// recoverMalformed turns a panic of the trie library on malformed node data (which
+// may have been supplied by a remote peer) into an error.
+func recoverMalformed(err *error) {
+	if r := recover(); r != nil {
+		*err = fmt.Errorf("manifest: malformed node: %v", r)
+	}
+}
+
+func (m *mantarayManifest) Lookup(ctx context.Context, path string) (_ Entry, err error) {
+	defer recoverMalformed(&err)
 	p := []byte(path)
 
 	node, err := m.trie.LookupNode(ctx, p, m.ls)
@@ -97,7 +106,8 @@ func (m *mantarayManifest) Lookup(ctx context.Context, path string) (Entry, erro
 	return entry, nil
 }
 
-func (m *mantarayManifest) HasPrefix(ctx context.Context, prefix string) (bool, error) {
+func (m *mantarayManifest) HasPrefix(ctx context.Context, prefix string) (_ bool, err error) {
+	defer recoverMalformed(&err)
 	p := []byte(prefix)
 
 	return m.trie.HasPrefix(ctx, p, m.ls)
@@ -124,7 +134,8 @@ func (m *mantarayManifest) Store(ctx context.Context, storeSizeFn ...StoreSizeFu
 	return address, nil
 }
 
-func (m *mantarayManifest) IterateDirectories(ctx context.Context, path []byte, level int, fn NodeIterFunc) error {
+func (m *mantarayManifest) IterateDirectories(ctx context.Context, path []byte, level int, fn NodeIterFunc) (err error) {
+	defer recoverMalformed(&err)
 	reference := boson.NewAddress(m.trie.Reference())
 
 	if boson.ZeroAddress.Equal(reference) {
@@ -138,7 +149,7 @@ func (m *mantarayManifest) IterateDirectories(ctx context.Context, path []byte, 
 		uLevel = mantaray.MaxLevel
 	}
 
-	err := m.trie.WalkLevel(ctx, path, m.ls, uLevel, mantaray.WalkLevelFunc(fn))
+	err = m.trie.WalkLevel(ctx, path, m.ls, uLevel, mantaray.WalkLevelFunc(fn))
 	if err != nil {
 		return fmt.Errorf("manifest walk level: %w", err)
 	}
@@ -146,7 +157,8 @@ func (m *mantarayManifest) IterateDirectories(ctx context.Context, path []byte, 
 	return nil
 }
 
-func (m *mantarayManifest) IterateAddresses(ctx context.Context, fn boson.AddressIterFunc) error {
+func (m *mantarayManifest) IterateAddresses(ctx context.Context, fn boson.AddressIterFunc) (err error) {
+	defer recoverMalformed(&err)
 	reference := boson.NewAddress(m.trie.Reference())
 
 	if boson.ZeroAddress.Equal(reference) {
@@ -190,7 +202,7 @@ func (m *mantarayManifest) IterateAddresses(ctx context.Context, fn boson.Addres
 		return nil
 	}
 
-	err := m.trie.WalkNode(ctx, []byte{}, m.ls, walker)
+	err = m.trie.WalkNode(ctx, []byte{}, m.ls, walker)
 	if err != nil {
 		return fmt.Errorf("manifest iterate addresses: %w", err)
 	}
